@@ -36,8 +36,10 @@ Cases ==
   \cup ({"cond"} \X N1 \X N1 \X Types \X Types \X Types)         \* z:c ? x:a : y:b
   \cup ({"asg"} \X N1 \X N1 \X Types \X Types \X N1)             \* object of type b = x : a
   \cup ({"test"} \X N1 \X N1 \X Types \X N1 \X N1)
-  \cup ({"opasg"} \X AsgOps \X N1 \X Types \X Types \X N1)       \* object x : a  op=  y : b
-  \cup ({"incdec"} \X IncDecKinds \X N1 \X Types \X N1 \X N1)
+  \cup ({"opasg", "aopasg"} \X AsgOps \X N1 \X Types \X Types \X N1)       \* object x : a  op=  y : b  (aopasg: _Atomic a)
+  \cup ({"incdec", "aincdec"} \X IncDecKinds \X N1 \X Types \X N1 \X N1)
+  \cup ({"case"} \X N1 \X N1 \X Types \X Types \X N1)          \* switch (x : a) { case (y : b): }
+  \cup ({"enum"} \X AsgOps \X N1 \X Types \X N1 \X N1)          \* enum { N = x }; { enum { N = N op (y : a), M }; }
   \cup ({"cc"} \X N1 \X N1 \X Types \X Types \X Types)           \* (c)(b) x, x : a   (cast chain)
   \cup ({"ptr"} \X PtrArithOps \X N1 \X Types \X N1 \X N1)         \* &arr[y] + x, x : a
   \cup ({"ptr"} \X PtrRelOps \X N1 \X N1 \X N1 \X N1)              \* &arr[y] - &arr[z], <, ...
@@ -61,8 +63,10 @@ Next == /\ ph = 0 /\ ph' = 1
            ELSE IF sh \in {"d2l", "d2r", "d2u"}
            THEN x' \in Bnd(a) /\ y' \in Bnd(b) /\ z' \in Bnd(c)
            ELSE IF sh = "cond" THEN x' \in Bnd(a) /\ y' \in Bnd(b) /\ z' \in All(c)
-           ELSE IF sh = "opasg" /\ ~OpAsgAll THEN x' \in Bnd(a) /\ y' \in Bnd(b) /\ z' = 0
-           ELSE IF sh \in {"bin", "opasg"} THEN x' \in All(a) /\ y' \in All(b) /\ z' = 0
+           ELSE IF sh = "case" THEN x' \in All(a) /\ y' \in All(b) /\ z' = 0
+           ELSE IF sh = "enum" THEN x' \in Bnd("int") /\ y' \in All(a) /\ z' = 0
+           ELSE IF sh \in {"opasg", "aopasg"} /\ ~OpAsgAll THEN x' \in Bnd(a) /\ y' \in Bnd(b) /\ z' = 0
+           ELSE IF sh \in {"bin", "opasg", "aopasg"} THEN x' \in All(a) /\ y' \in All(b) /\ z' = 0
            ELSE x' \in All(a) /\ y' = 0 /\ z' = 0
 Spec == Init /\ [][Next]_vars
 
@@ -73,8 +77,8 @@ LA == CASE sh = "bin"    -> Bin(op, a, x, b, y)
         [] sh = "cond"   -> Cond(z, a, x, b, y)
         [] sh = "asg"    -> AsIf(b, Res(TRUE, a, x))
         [] sh = "test"   -> Test(Res(TRUE, a, x))
-        [] sh = "opasg"  -> OpAssign(op, a, x, Res(TRUE, b, y))
-        [] sh = "incdec" -> IncDec(op, a, x)
+        [] sh \in {"opasg", "aopasg"}  -> OpAssign(op, a, x, Res(TRUE, b, y))
+        [] sh \in {"incdec", "aincdec"} -> IncDec(op, a, x)
         [] sh = "cc"     -> Cast(c, b, Cast(b, a, x).v)
         [] OTHER -> Bad
 Mem(t, v) == U(v, StoreW(t))
@@ -86,11 +90,13 @@ LI(g1, g2, g3) ==
     [] sh = "asg"    -> IAsIf(b, IR(a, Reg(a, x, g1)))
     [] sh = "test"   -> IR("int", Bool01(CmpZero(a, Reg(a, x, g1))))
     [] sh = "opasg"  -> IOpAssign(op, a, Mem(a, x), IR(b, Reg(b, y, g2)))
+    [] sh = "aopasg" -> IOpAssignA(op, a, Mem(a, x), IR(b, Reg(b, y, g2)))
     [] sh = "incdec" -> IIncDec(op, a, Mem(a, x))
+    [] sh = "aincdec" -> IIncDecG(TRUE, op, a, Mem(a, x))
     [] sh = "cc"     -> ICastE(c, b, ICastE(b, a, Reg(a, x, g1)).r)
     [] OTHER -> IR("int", 0)
 G(t) == IF t = "-" THEN {0} ELSE Garb(t)
-Depth1 == sh \in {"bin", "un", "cast", "cond", "asg", "test", "opasg", "incdec", "cc"}
+Depth1 == sh \in {"bin", "un", "cast", "cond", "asg", "test", "opasg", "incdec", "cc", "aopasg", "aincdec"}
 
 (* the type chibicc gives the expression has the C11 size and signedness (whenever some operand values make it defined) *)
 TypeInv == (ph = 1 /\ Depth1) => LET la == LA IN la.ok => TyObs(LI(0, 0, 0).t) = TyObs(la.t)
@@ -105,12 +111,12 @@ ValueInv ==
 (* the object written by an initializer/argument/return/assignment, op= or ++/-- holds the C11 value,
    and loading it back yields a legal register *)
 ObjInv ==
-  (ph = 1 /\ sh \in {"asg", "opasg", "incdec"}) =>
+  (ph = 1 /\ sh \in {"asg", "opasg", "incdec", "aopasg", "aincdec"}) =>
      LET la == LA IN
      la.ok => \A g1 \in G(a), g2 \in G(b) :
         LET td == IF sh = "asg" THEN b ELSE a
-            va == IF sh = "incdec" THEN la.obj ELSE la.v
-            m  == IF sh = "incdec" THEN LI(g1, g2, 0).obj ELSE Store(td, LI(g1, g2, 0).r)
+            va == IF sh \in {"incdec", "aincdec"} THEN la.obj ELSE la.v
+            m  == IF sh \in {"incdec", "aincdec"} THEN LI(g1, g2, 0).obj ELSE Store(td, LI(g1, g2, 0).r)
         IN m = Mem(td, va) /\ RegOK(td, Load(td, m), va)
 LoadInv == (ph = 1 /\ sh = "un") => RegOK(a, Load(a, Mem(a, x)), x)
 
@@ -128,6 +134,21 @@ Tree == CASE sh = "bin"  -> BinE(op, L(a, x), L(b, y))
                             ELSE UnE(op2, BinE(op, L(a, x), L(b, y)))
           [] OTHER -> L("int", 0)
 ConstInv == (ph = 1 /\ sh \in {"bin", "un", "cast", "cond", "cc", "d2l", "d2r", "d2u"}) => ConstAgrees(Tree)
+
+(* switch: the case chibicc's compare selects is the case C11 selects, the label being what eval2 folded
+   from a literal of type b (ConstEval), for every controlling value, label value and garbage pattern *)
+CaseInv ==
+  (ph = 1 /\ sh = "case") =>
+    \A g1 \in G(a) : ICaseSelects(a, Reg(a, x, g1), CE(L(b, y)).v) = CaseSelects(a, x, y)
+(* enumerators: `enum { N = x }; { enum { N = N op y, M }; }` - the inner N is defined from the OUTER N
+   (chibicc: the scope entry is pushed after const_expr; MUT "enumearly" pushes it before, value 0) *)
+EnumInv ==
+  (ph = 1 /\ sh = "enum") =>
+    LET la  == EnumDef(op, x, a, y)
+        seen == IF MUT = "enumearly" THEN 0 ELSE x
+        c1  == CE(BinE(op, L("int", seen), L(a, y)))
+    IN la.ok => /\ S(U(c1.v, WI), WI) = la.v                 \* enum_specifier keeps `int val`
+                /\ S(U(c1.v, WI), WI) + 1 = la.next
 
 (* pointers: the address chibicc computes is the address of the element C11 designates, for every
    element size, array address and garbage pattern of the integer operand; p - q and the comparisons
@@ -162,9 +183,9 @@ SanityInv ==
              LET r == Bin("mod", a, x, b, y)  ct == UAC(a, b)
              IN r.ok /\ LAx.v * Convert(y, ct) + r.v = Convert(x, ct))
        /\ (~Sg(UAC(a, b)) /\ op \in {"add", "sub", "mul", "band", "bor", "bxor"} => LAx.ok)   \* unsigned never overflows
-  /\ sh = "opasg" => LET r == Bin(op, a, x, b, y)                           \* a op= b  ==  a = (T)(a op b)
+  /\ sh \in {"opasg", "aopasg"} => LET r == Bin(op, a, x, b, y)                           \* a op= b  ==  a = (T)(a op b)
                      IN LAx.ok = r.ok /\ (LAx.ok => LAx.v = Cast(a, r.t, r.v).v /\ LAx.t = a)
-  /\ sh = "incdec" /\ LAx.ok =>
+  /\ sh \in {"incdec", "aincdec"} /\ LAx.ok =>
        /\ (op \in {"postinc", "postdec"} => LAx.v = x)                       \* x++ yields the old value
        /\ (op \in {"preinc", "predec"} => LAx.v = LAx.obj)
        /\ (a = "bool" => LAx.obj = (IF op \in {"preinc", "postinc"} THEN 1 ELSE 1 - x))
